@@ -246,13 +246,50 @@ CLAIMS["C18"] = {
     "technique": "Lean 4 proofs (print/parse round trip) over executable PEG-parser and formatter models + differential correspondence against the real parser and formatter",
 }
 
+CLAIMS["C06"] = {
+    "category": "proof",
+    "text": "Partial. Machine-checked proof (Lean 4) over an executable model of the client's message handling (Client::run's "
+            "handle_message and all msg_* functions, one case each; serial maps, channel-end and bus-listener state machines, version "
+            "gates, every expect / assert / unreachable as an explicit panic outcome): for histories of ANY length, a serial is in the map "
+            "of its request kind iff a request of that kind and serial has been sent and not answered (pending_is_open_requests); a "
+            "reply with an unknown serial is refused for each of the 17 checked kinds (unknown_serial_is_refused) and a reply to an "
+            "open request is never refused for the 12 kinds that depend on nothing else (reply_to_open_request_is_not_refused), the "
+            "other five have their second condition stated; call / destroy replies are never refused; for every serial-less message "
+            "(items, capacity, end claimed / closed, current bus events, current-finished) the exact client state that accepts it. "
+            "The composed statement (the broker only ever sends what the client accepts, under every schedule) is NOT a theorem: it is "
+            "tied by runs of real clients against a real broker under PRNG-chosen schedules on FIFO sizes 1..16 and unbounded, whose "
+            "transport traces are replayed through the model, with implementation-only oracles for panics, unexpected-message stops, "
+            "completion at quiescence (lost wake-ups, deadlock), call-result consistency and an idle broker stopping.",
+    "note": "Trusted: Lean kernel (+propext, Classical.choice, Quot.sound), the harness (executor, fake broker, transport tap). Modelled "
+            "rather than verified: the client as seen at its transport (what it remembers is derived from the messages it sends and "
+            "receives; HandleRequests are not observed), HashMaps as association lists. Not modelled: futures, wakers, select fairness, "
+            "flush tracking, back-pressure of bounded transports, proxies' event routing; these are exercised by the schedule-randomised "
+            "runs only (support, not proof). A finding of these runs was repaired (failed claim of a channel end, known_findings.json).",
+    "design_ref": "DESIGN.md section 6 C06, section 10",
+}
+
+CLAIMS["C15"] = {
+    "category": "proof",
+    "text": "Partial. Machine-checked proof (Lean 4) over an executable model of Client::run's loop (main loop, drain_transport, "
+            "returned) around the message-handling model of C06: wherever in a history of ANY length the transport fails, a client "
+            "that had not returned returns the transport error and nothing afterwards changes that "
+            "(fault_at_any_point_returns_transport_error, stopped_is_final); the two clean exchanges (own Shutdown then the broker's; "
+            "the broker's Shutdown, answer, flush) return Ok whatever arrives in between, because a draining client looks at nothing "
+            "but Shutdown (draining_ignores_everything_else); UnexpectedMessageReceived is returned only for a message handle_message "
+            "refuses in the main loop. That every pending operation completes when the client has returned is Rust drop semantics and "
+            "NOT a theorem: it is checked by fault enumeration on the real code (transport failure at the k-th transport operation, k "
+            "random per scenario over the whole life of the connection, both kinds, plus the four clean causes, PRNG-chosen schedules, "
+            "real broker): every operation task complete at quiescence, operations started after the stop complete at once, the run "
+            "result equal to the model's, the broker left without connections, objects, services, channels, listeners.",
+    "note": "Trusted: Lean kernel (+propext, Classical.choice, Quot.sound), the harness (executor, transport wrapper with the fault "
+            "point). Modelled rather than verified: the run loop as phases over transport events; flushes are visible only as the "
+            "final 'returned' state. Not modelled: oneshot / mpsc drop glue, handle counting (num_handles) — observed through the "
+            "'all handles dropped' cause. A finding of these runs was repaired (connection task vs. broker shutdown race, "
+            "known_findings.json).",
+    "design_ref": "DESIGN.md section 6 C15, section 10",
+}
+
 NOT_APPLICABLE = {
-    "C06": "no theorem: the statement is about the async aldrin client (client.rs, handle.rs, proxies, channels) composed with the broker "
-           "under every schedule; lost wake-ups, deadlock on bounded transports and completion of awaited operations live in the "
-           "futures/tokio runtime, which an executable Lean model cannot exhibit, and the logical part (request/reply pairing of a client "
-           "model against the broker model) was designed but not built. A schedule-randomised run alone would be testing. DESIGN.md 10.7",
-    "C15": "no theorem: needs the same client model as C06; the deciding mechanism (every pending operation is a oneshot/channel end "
-           "owned by the client and dropped with it) is Rust drop semantics rather than protocol logic. Not built. DESIGN.md 10.7",
     "C17": "not applicable to this technique as the code stands: absence of panics in the pest-generated parser, validator, diagnostic "
            "renderer and formatter is a statement about Rust code paths (unwrap, slicing, arithmetic); a total Lean function proves "
            "nothing about them and an explicit-failure model would need pest's parse trees for the whole grammar. DESIGN.md 10.7",
